@@ -125,6 +125,12 @@ func (o *crashOps) Create(r *go9p.SrvReq) {
 	r.RespondRcreate(qidOf(h), 0)
 }
 func (o *crashOps) Read(r *go9p.SrvReq) {
+	if r.Tc.Offset == 0xdead {
+		// a slow operation: requests with the same tag queue up behind it
+		time.Sleep(40 * time.Millisecond)
+		r.RespondRread(make([]byte, 8))
+		return
+	}
 	h := hashReq(r)
 	if o.maybeErr(r, h) {
 		return
@@ -419,7 +425,9 @@ type crashCase struct {
 	target string
 	kind   string
 	setup  [][]byte // sent one by one, each reply awaited (so the fid states exist)
-	input  []byte   // then blasted in one piece: the requests run concurrently
+	warm   []byte   // then sent in one piece, all warmN replies awaited (several reply buffers get recycled)
+	warmN  int
+	input  []byte // then blasted in one piece: the requests run concurrently
 	frames int
 	slowly bool // written in small pieces
 }
@@ -639,6 +647,35 @@ func genCrashCase(i int) crashCase {
 		}
 		// the renegotiation and what follows go out one by one as well: each read meets the new msize
 		return crashCase{target: target, kind: "renegotiate", setup: fr, input: ccFrame(&gmsg{kind: go9p.Tstat, a: 1}, dotu, 999), frames: len(fr) - ns}
+	case 4: // a request queued behind a slow one with the same tag is flushed before it starts; the pool holds recycled reply buffers of the same type
+		if target == "ufs" {
+			target = "scripted"
+		}
+		fr := setupFrames(target, 8192, dotu)
+		var warm []byte
+		nw := 4 + rng.Intn(4)
+		kind := rng.Intn(3)
+		mk := func(tag uint16, off uint64) []byte {
+			switch kind {
+			case 0:
+				return ccFrame(&gmsg{kind: go9p.Tread, a: 3, b: off, c: 16}, dotu, tag)
+			case 1:
+				if off == 0xdead {
+					return ccFrame(&gmsg{kind: go9p.Tread, a: 3, b: off, c: 16}, dotu, tag)
+				}
+				return ccFrame(&gmsg{kind: go9p.Tattach, a: uint64(200 + tag), b: uint64(go9p.NOFID), s1: []byte(userName()), s2: []byte("x"), c: uint64(os.Getuid())}, dotu, tag)
+			}
+			return ccFrame(&gmsg{kind: go9p.Tstat, a: 1}, dotu, tag)
+		}
+		for j := 0; j < nw; j++ {
+			warm = append(warm, mk(uint16(300+j), uint64(j))...)
+		}
+		var in []byte
+		in = append(in, ccFrame(&gmsg{kind: go9p.Tread, a: 3, b: 0xdead, c: 16}, dotu, 400)...)
+		in = append(in, mk(400, 5)...)
+		in = append(in, ccFrame(&gmsg{kind: go9p.Tflush, a: 400}, dotu, 401)...)
+		in = append(in, ccFrame(&gmsg{kind: go9p.Tstat, a: 1}, dotu, 402)...)
+		return crashCase{target: target, kind: "flushqueued", setup: fr, warm: warm, warmN: nw, input: in, frames: len(fr) + nw + 4}
 	case 6: // adversarial requests straight away (no Tversion, no attach)
 		var fr [][]byte
 		for j := 0; j < 3+rng.Intn(8); j++ {
@@ -806,6 +843,16 @@ func runCrashCase(ch *crashChild, cc crashCase) (closed bool) {
 		}
 		if r, _ := readFrameT(c, 2*time.Second); r == nil {
 			break
+		}
+	}
+	if cc.warm != nil {
+		c.SetWriteDeadline(time.Now().Add(2 * time.Second))
+		if _, err := c.Write(cc.warm); err == nil {
+			for i := 0; i < cc.warmN; i++ {
+				if r, _ := readFrameT(c, 2*time.Second); r == nil {
+					break
+				}
+			}
 		}
 	}
 	done := make(chan bool, 1)
